@@ -186,11 +186,17 @@ class SRC:
             for arg in details['MessageArgSources']:
                 hexword_args.append(hex(self.hexData[int(arg[-1]) - 2]))
 
-            # message may have %1, etc. replace with {} and then fill
-            # those in with the hexData words
+            # message may have %1, etc. replace %N with the Nth
+            # MessageArgSources hexData word
             import re
-            message = re.sub(r'%[1-9]', "{}", message)
-            message = message.format(*hexword_args)
+
+            def fillArg(match):
+                index = int(match.group(1)) - 1
+                if index < len(hexword_args):
+                    return hexword_args[index]
+                return match.group(0)
+
+            message = re.sub(r'%([1-9])', fillArg, message)
 
         return message
 
